@@ -91,7 +91,7 @@ def run(chk, quick, rnd):
     wide = [t for t in _tags(["1", "0", "a", "A", "_", "-", " ", "#"], 2)]
     curated = [tuple(t) for t in ("1", "01", "10", "9", "2", "a", "A", "_a", "a-", "b", "a1", "1a", "z.", "Z")]
     if quick:
-        curated = [tuple(t) for t in ("1", "01", "10", "9", "a", "A", "b", "1a")]
+        curated = [tuple(t) for t in ("1", "01", "10", "9", "a", "1a")]
     insts = [
         ("wide", dict(TagPool={tuple(t) for t in wide}, Secrets={"s1", "", "x:y"}, MaxPairs=1 if quick else 2,
                       Forms={"none", "dict", "json", "line", "list", "jsonlist"}, Dflts={(), ("a",)}, DoEmit=True)),
